@@ -113,7 +113,7 @@ class G:
         name, t, c, a, user, cn, arg = j
         if isinstance(a, float):
             return G(name, t, c, val=a, user=user, cn=cn, arg=arg)
-        if isinstance(a, list):
+        if isinstance(a, (list, tuple)):
             return G(name, t, c, val=tuple(a), user=user, cn=cn, arg=arg)
         return G(name, t, c, p8=a, user=user, cn=cn, arg=arg)
 
@@ -455,7 +455,7 @@ class C01(PropertyCheck):
     def _decode(name, ans):
         """model answer -> (status, value) in the same shape as the implementation's"""
         if not ans.startswith("ok"):
-            return ans, None
+            return ans.replace("embed-index", "index"), None     # both are IndexError
         body = ans[3:].strip()
         if name in ("ket",):
             return "ok", parse_vec(body)
@@ -675,6 +675,7 @@ class C01(PropertyCheck):
         for g in singles:
             self._exact_case(ctx, res, 3, [g], [], ["single", "N=3"])
         res.notes.append(f"exhaustive: every placed exact library gate on 1, 2 and 3 qubits ({len(singles)} on 3 qubits), all paths")
+        ctx.log(f"  singles done at {time.time() - t0:.1f}s")
         # 2. every ordered pair of placed gates on 3 qubits (thorough), sampled (quick)
         light = placed_gates(3, rot_angles=False)
         pair_paths = {"ket", "dm", "unitary", "prod_ltr", "compact", "ket_steps"}
@@ -688,6 +689,7 @@ class C01(PropertyCheck):
         for a, b in pairs:
             self._exact_case(ctx, res, 3, [a, b], [], ["pair", "N=3"], paths=pair_paths)
         res.exhaustive = True
+        ctx.log(f"  pairs done at {time.time() - t0:.1f}s")
         # 3. seeded random exact circuits up to 6 qubits, with user gates
         n_rand = 400 if ctx.thorough else 70
         for i in range(n_rand):
@@ -713,15 +715,18 @@ class C01(PropertyCheck):
                 paths = {"ket", "ket_steps", "dm", "unitary", "compact"}
             self._exact_case(ctx, res, N, gates, ugs, ["random", f"N={N}", f"len={len(gates)}", "ug" if ugs else "noug"],
                              paths=paths)
+        ctx.log(f"  random done at {time.time() - t0:.1f}s")
         # 4. parametric circuits: oracle only
         for i in range(300 if ctx.thorough else 60):
             N = rng.choice([1, 2, 3, 3, 4, 5, 6])
             gates = [random_float_gate(rng, N) if rng.random() < 0.7 else random_exact_gate(rng, N) for _ in range(rng.randint(1, 7))]
             self._float_case(ctx, res, N, gates, ["float", f"N={N}"])
+        ctx.log(f"  float done at {time.time() - t0:.1f}s")
         # 5. compact product on 9-12 qubits (set-order-sensitive shapes)
         for i in range(24 if ctx.thorough else 6):
             N = rng.choice([9, 10, 11, 12] if ctx.thorough else [9, 10, 11])
             self._big_compact(ctx, res, N, self._random_big(rng, N), ["big"])
+        ctx.log(f"  big done at {time.time() - t0:.1f}s")
         # 6. malformed stream
         self._malformed(ctx, res)
         ctx.log(f"correspondence took {time.time() - t0:.1f}s")
@@ -760,9 +765,11 @@ class C01(PropertyCheck):
         def steps(mode, state):
             sim = CircuitSimulator(qc, mode=mode)
             sim.initialize(state)
+            last = state.full()
             for _ in range(len(qc.gates)):
                 sim.step()
-            return sim.state.full()
+                last = sim.state.full()      # read between the steps, as the documentation does
+            return last
 
         def compact():
             Us = qc.propagators(expand=False)
